@@ -9,6 +9,7 @@ mod c12;
 mod c13;
 mod worker;
 mod c14;
+mod c15;
 mod hookutil;
 mod convert;
 mod ctx;
@@ -120,6 +121,7 @@ fn real_main(args: Vec<String>) -> i32 {
                 "C12" => c12::run(&ctx),
                 "C13" => c13::run(&ctx),
                 "C14" => c14::run(&ctx),
+                "C15" => c15::run(&ctx),
                 _ => Err(format!("no check for {}", prop)),
             };
             match r {
